@@ -84,6 +84,10 @@ ClassifyMut(r, h, run) ==
   LET v == run.st.vars IN
   IF run.why = "IndexNotRepresentable" THEN "C17-indexwrap"
   ELSE IF r.obs.verdict = "abort" /\ r.obs.kind = "asan:out-of-memory" /\ (run.why = "HugeLength" \/ HugeAnnounced(v)) THEN "C17-hugealloc"
+  ELSE IF /\ r.obs.verdict = "abort" /\ h.kind = "image"
+          /\ (StartsWith(r.obs.kind, "ubsan:member access within null pointer") \/ r.obs.kind = "asan:SEGV")
+          /\ \E x \in {ImageJudge(run, h.cfg)} : x.k = "reject" /\ x.why \notin {"data file", "no dataset", "number type", "offset", "data file too short"}
+       THEN "C17-imgnull"       \* the header did not parse (hdr.parse() false): no image was created
   ELSE IF r.obs.verdict = "abort" /\ run.verdict = "accepted" /\ (Len(v.data_offset) = 0 \/ Len(v.image_scaling_factors) = 0) THEN "C17-nodataset"
   ELSE IF r.obs.verdict = "abort" /\ h.kind = "projdata" /\ run.why = "MissingMatrixSize" THEN "C17-matrixsize-missing"
   ELSE IF r.obs.verdict = "abort" /\ h.kind = "projdata" /\ r.obs.kind = "ubsan:division by zero" THEN "C17-scanner-div0"
@@ -95,7 +99,7 @@ Classify(r, h) ==
       ELSE IF \E x \in {TestRun(r.gen.ids, r.gen.nl)} : x.why = "IndexNotRepresentable" /\ r.obs.verdict # "abort" THEN "C17-indexwrap"
       ELSE "new")
   ELSE IF r.e = "Mut" /\ h.hid = r.hid THEN
-     CHOOSE cls \in {"C17-hugealloc", "C17-nodataset", "C17-matrixsize-missing", "C17-scanner-div0", "C17-ub-arith", "C17-indexwrap", "new"} :
+     CHOOSE cls \in {"C17-imgnull", "C17-hugealloc", "C17-nodataset", "C17-matrixsize-missing", "C17-scanner-div0", "C17-ub-arith", "C17-indexwrap", "new"} :
         \E run \in {MutRun(r, h)} : cls = ClassifyMut(r, h, run)
   ELSE IF r.e = "RT" /\ ~r.constructed /\ StartsWith(r.abort, "ubsan:member access within null pointer") /\ r.registry = "BinNormalisation" THEN "C17-norm-null"
   ELSE "new"
